@@ -40,7 +40,7 @@ var (
 	ElNames3 = []string{"a", "b", "c"}
 	ElNames2 = []string{"a", "b"}
 	AtNames2 = []string{"x", "y"}
-	Texts    = []string{"1", "2", "t", "10", "x y"}
+	Texts    = []string{"1", "2", "t", "10", "x y", "it's"}
 	AtVals   = []string{"1", "2", "t", ""}
 )
 
@@ -87,6 +87,9 @@ func Doc(t *rapid.T, o DocOpts) *xdoc.Doc {
 				used := map[string]bool{}
 				for j := 0; j < na; j++ {
 					a := &xdoc.Node{Kind: xpath.AttributeNode, Local: o.AtNames[(j)%len(o.AtNames)], Value: rapid.SampledFrom(o.AtVals).Draw(t, "aval")}
+					if rapid.IntRange(0, 5).Draw(t, "attr-like-element") == 5 {
+						a.Local = k.Local // an attribute named like its element: <a a='1'>
+					}
 					if o.NS != nil {
 						// with prefixes in play the same local name may occur twice (x and p:x)
 						a.Local = rapid.SampledFrom(o.AtNames).Draw(t, "alocal")
